@@ -14,7 +14,7 @@ VERIF = os.path.dirname(os.path.dirname(os.path.abspath(__file__)))
 
 
 def in_files(f, files):
-    return any(f.file.endswith("/" + x) or f.file.endswith(x) for x in files)
+    return any(f.file.endswith("/" + x) for x in files)
 
 
 # ------------------------------------------------------------- C01/C02.handle
